@@ -61,7 +61,8 @@ PARENT_SIMPLE = [
     ('loop.remove_reader(rx.fileno())', 'PRemoveReader'),
     ('event.clear()', 'PClearEvent'),
     ('process.join()', 'PJoin'),
-    ('process.kill()', 'PKill'),
+    ('process.kill()', 'PKill KSigKill'),            # SIGKILL
+    ('process.terminate()', 'PKill KSigTerm'),       # SIGTERM: fatal only under the default disposition (beh.b_term_fatal)
     ('rx.close()', 'PCloseRx'),
     ('if isinstance(result, SubprocessError):\n    raise result.exception', 'PRaiseIfError'),
     ('return result', 'PReturn'),
